@@ -534,13 +534,23 @@ def _describe_return(value):
 
 
 def _record_objects(scenario):
-    """ (sequential args, parallel args, shapes): two independent builds of the same specs """
-    seq_args, par_args, shapes = [], [], []
+    """ (sequential args, parallel args, shapes, unstable): two independent builds of the same specs.
+        Building is itself real antiSMASH code (candidate/region formation); where two builds of one
+        spec do not give the same object graph (not this property's business) the task is marked
+        unstable and the checker does not compare its content. """
+    seq_args, par_args, shapes, unstable = [], [], [], []
     fn = scenario["fn"]
     for i, (spec, delay) in enumerate(zip(scenario["records"], scenario["delays"])):
         if fn in ("raw_ensure", "pre_process"):
             spec = dict(spec, delay=delay)
-        first, second = build_record(spec), build_record(spec)
+        first = build_record(spec)
+        reference = digest(canon(first))      # canon() calls no methods: caches stay as built
+        for _ in range(4):
+            second = build_record(spec)
+            if digest(canon(second)) == reference:
+                break
+        else:
+            unstable.append(i)
         shapes.append(record_shape(second))
         if fn == "cds_probe":
             pick = spec.get("pick", 0)
@@ -552,7 +562,7 @@ def _record_objects(scenario):
         else:
             seq_args.append([first, 0])
             par_args.append([second, delay])
-    return seq_args, par_args, shapes
+    return seq_args, par_args, shapes, unstable
 
 
 RECORD_FUNCTIONS = {"echo": rec_echo, "sanitise": rec_sanitise, "ensure": rec_ensure, "cds_probe": cds_probe}
@@ -562,7 +572,7 @@ def run_record_scenario(scenario):  # pylint: disable=too-many-locals,too-many-b
     from antismash.common import record_processing
     fn = scenario["fn"]
     try:
-        seq_args, par_args, shapes = _record_objects(scenario)
+        seq_args, par_args, shapes, unstable = _record_objects(scenario)
     except Exception as err:  # pylint: disable=broad-except
         return {"outcome": "build_failed", "exc_type": type(err).__name__, "exc_msg": str(err)[:300]}
     wrapped = fn in RECORD_FUNCTIONS
@@ -577,6 +587,7 @@ def run_record_scenario(scenario):  # pylint: disable=too-many-locals,too-many-b
     seq_info, seq_results = _outcome(lambda: [function(*a) for a in seq_args])
     info, results = _outcome(lambda: _call_parallel(function, par_args, scenario))
     info["shapes"] = shapes
+    info["unstable_builds"] = unstable
     info["seq_outcome"] = seq_info["outcome"]
     if seq_info["outcome"] == "raised":
         info["seq_exc"] = [seq_info["exc_type"], seq_info["exc_msg"]]
@@ -625,7 +636,7 @@ def run_pre_process(scenario):
     from antismash.config import get_config, update_config
     module = sys.modules[__name__]
     try:
-        seq_args, par_args, shapes = _record_objects(scenario)
+        seq_args, par_args, shapes, unstable = _record_objects(scenario)
     except Exception as err:  # pylint: disable=broad-except
         return {"outcome": "build_failed", "exc_type": type(err).__name__, "exc_msg": str(err)[:300]}
 
@@ -638,6 +649,7 @@ def run_pre_process(scenario):
     seq_info, seq_results = _outcome(lambda: call([a[0] for a in seq_args], 1))
     info, results = _outcome(lambda: call([a[0] for a in par_args], scenario["k"]))
     info["shapes"] = shapes
+    info["unstable_builds"] = unstable
     info["seq_outcome"] = seq_info["outcome"]
     if seq_info["outcome"] == "raised":
         info["seq_exc"] = [seq_info["exc_type"], seq_info["exc_msg"]]
